@@ -359,7 +359,12 @@ def c20_5(ctx: Ctx):
     lin = linear(pi.node)
     raises = [g for g in lin.stmts if isinstance(g.node, ast.Raise)]
     links = [g for g, c in lin.all_calls() if src(c.func).endswith("insert_node_after")]
-    ok = len(raises) == 1 and lin.under(raises[0], "block in self.__order") and links and all(raises[0].index < l.index for l in links)
+    # refused whenever the block is already ordered (the guard may refuse more, e.g. duplicates within the call: C20.10)
+    from ..astx import f_and, implies as _implies
+
+    in_order = lin.cond_at(raises[0], ast.parse("block in self.__order", mode="eval").body) if raises else None
+    body0 = lin.of(raises[0].loops[-1].body[0]).guard if raises and raises[0].loops else None
+    ok = len(raises) == 1 and body0 is not None and _implies(f_and(body0, in_order), raises[0].guard) and links and all(raises[0].index < l.index for l in links)
     ctx.check(bool(ok), pi, pi.node, "already-ordered blocks are rejected before anything is linked", "duplicate check moved/removed: a block could appear twice in the ordering")
     st = [g for g in lin.stmts if isinstance(g.node, ast.Assign) and src(g.node.targets[0]) == "self.__order[block]"]
     pe = [g for g in lin.stmts if isinstance(g.node, ast.Assign) and src(g.node.targets[0]) == "prev_entry" and src(g.node.value) == "block_entry"]
